@@ -2,6 +2,7 @@
 //! concordium_base and the key-derivation crates of /repo/rust-src.
 mod alloc;
 mod auth;
+mod cborx;
 mod cc;
 mod envelope;
 mod text;
@@ -26,6 +27,7 @@ fn main() {
         "wire-replay" => wire::main(rest),
         "text-replay" => text::main(rest),
         "cc-replay" => cc::main(rest),
+        "cbor-replay" => cborx::main(rest),
         other => {
             eprintln!("unknown subcommand {}", other);
             2
